@@ -235,6 +235,34 @@ pub fn run(ctx: &RunCtx) -> i32 {
         cases.push((menu::lmsg(1, 1, tid, vec![L::Data(blob(n))]), false, "far-above"));
         cases.push((menu::lmsg(1, 1, tid, vec![L::Data(blob(40000)), L::Data(blob(n - 30000)), L::Fp]), false, "far-above-two"));
     }
+    // boundary crossed by attributes without a value (USE-CANDIDATE, DONT-FRAGMENT, an empty SOFTWARE), one to three of
+    // them after a body of 65,500..=65,536 bytes
+    for base in (65_500..=65_536usize).step_by(4) {
+        for k in 1..=3usize {
+            for empty in [L::UseCandidate, L::DontFragment, L::Software(String::new())] {
+                let mut attrs = vec![L::Data(blob(base - 4))];
+                for j in 0..k {
+                    attrs.push(if j == 0 { empty.clone() } else { [L::UseCandidate, L::DontFragment][j % 2].clone() });
+                }
+                cases.push((menu::lmsg(1, 0, tid, attrs), false, "value-less-attribute"));
+            }
+        }
+    }
+    // boundary crossed by one representative of EVERY attribute kind: the body ends 4 bytes below, exactly at and 4 bytes
+    // above the 65,532-byte maximum with that attribute last, and with one more PRIORITY behind it
+    for a in menu::kind_reps() {
+        let sz = menu::body_size(std::slice::from_ref(&a), &tid);
+        for end in [65_528usize, 65_532, 65_536] {
+            if end < sz + 8 {
+                continue;
+            }
+            let filler = end - sz;
+            cases.push((menu::lmsg(1, 2, tid, vec![L::Data(blob(filler - 4)), a.clone()]), false, "each-kind-last"));
+            if end >= sz + 16 {
+                cases.push((menu::lmsg(1, 2, tid, vec![L::Data(blob(filler - 12)), a.clone(), L::Priority(1)]), false, "each-kind-before-last"));
+            }
+        }
+    }
     let n_large = cases.len();
     cases.par_iter().for_each(|(lm, k, what)| {
         let mut r = Report::new();
@@ -252,7 +280,7 @@ pub fn run(ctx: &RunCtx) -> i32 {
         rep,
         Finish {
             level: "exploration",
-            rule: format!("every buffer length 0..=needed+8 x 3 pre-fills for every single-attribute message of the {}-entry menu x 8 tails, for the empty body x 8 tails and for every ordered pair over the {}-entry (values <=120 bytes) menu x 8 tails; {} large messages walking every attribute-byte total across 65,440..=65,560 with the boundary crossed by the first, last, middle attribute or a member of the tail, plus 65,535..131,072-byte values. Non-trivial = (message, length, prefill) whose result matched 'Ok with reference bytes and untouched tail iff long enough' / large case that round-tripped or was refused as expected", full.len(), pair_menu.len(), n_large),
+            rule: format!("every buffer length 0..=needed+8 x 3 pre-fills for every single-attribute message of the {}-entry menu x 8 tails, for the empty body x 8 tails and for every ordered pair over the {}-entry (values <=120 bytes) menu x 8 tails; {} large messages walking every attribute-byte total across 65,440..=65,560 with the boundary crossed by the first, last, middle attribute or a member of the tail, plus 65,535..131,072-byte values; the boundary crossed by one to three value-less attributes (USE-CANDIDATE, DONT-FRAGMENT, empty SOFTWARE) after 65,500..=65,536 body bytes, and by one representative of every attribute kind ending 4 below / at / 4 above the 65,532-byte maximum (last, and followed by a PRIORITY). Non-trivial = (message, length, prefill) whose result matched 'Ok with reference bytes and untouched tail iff long enough' / large case that round-tripped or was refused as expected", full.len(), pair_menu.len(), n_large),
             assumptions: vec!["needed size and reference bytes come from R-codec".into()],
             required_symbols: vec!["singles", "pairs", "large-cases", "large-fitting-roundtrip", "large-rejected"],
             min_outcomes: 2,
